@@ -296,7 +296,11 @@ func (w *c15World) put(svcIdx, k int, val string) {
 	} else {
 		w.valOf[key] = val // first life, or (rekey) a new life of the key with possibly another value
 	}
-	w.ops = append(w.ops, c15Op{Op: "put", P: svcIdx, K: k, V: val})
+	shown := val
+	if val == "" {
+		shown = "(empty string)"
+	}
+	w.ops = append(w.ops, c15Op{Op: "put", P: svcIdx, K: k, V: shown})
 	ck := w.svcs[svcIdx] + "|" + val
 	if w.carriers[ck] == nil {
 		w.carriers[ck] = map[string]bool{}
